@@ -51,7 +51,7 @@ SHAPES = [
     ('enum_struct_variant', Enum(0, (1, DStruct((2, L('U16')), (3, Opt(L('Bool'))))), (4, DUnit())), True),
     ('enum_newtype_seq', Enum(0, (1, DNew(Seq(L('String'))))), False),
     ('enum_unit1', Enum(0, (1, DUnit())), True),
-    ('enum_struct1', Enum(0, (1, DStruct((2, L('U8'))))), True),
+    ('enum_struct1', Enum(0, (1, DStruct((2, L('U8'))))), False),
     ('enum_unit2', Enum(0, (1, DUnit()), (2, DUnit())), False),
     ('enum_mixed', Enum(0, (1, DUnit()), (2, DNew(L('Char')))), True),
     ('enum_tuple_struct', Enum(0, (1, DTup(L('U8'), L('I64'))), (2, DStruct((3, L('Isize'))))), True),
@@ -367,11 +367,11 @@ def main():
     # with garbage bounds at every level, and does not terminate even for a fully concrete one-field struct
     # (DESIGN.md §8).  These harnesses are kept, best-effort, so that a future toolchain may cover them.
     # (check, shape) pairs that did not terminate within the quick cap when measured: best-effort, thorough
-    for (chk, sid) in [('c15_enc', 'enum_struct_variant'), ('c15_enc', 'enum_tuple_struct'),
+    for (chk, sid) in [('c15_enc', 'enum_struct1'), ('c16_const_stream', 'enum_struct1'), ('c15_enc', 'enum_struct_variant'), ('c15_enc', 'enum_tuple_struct'),
                        ('c16_const_stream', 'enum_struct_variant'), ('c16_const_stream', 'enum_tuple_struct'),
                        ('c19_pseudo', 'enum_mixed'), ('c19_pseudo', 'enum_struct_variant'), ('c19_pseudo', 'enum_tuple_struct'),
                        ('c19_pseudo', 'enum_unit2'), ('c19_pseudo', 'enum_tuple0'), ('c19_pseudo', 'enum_tuple1'),
-                       ('c19_pseudo', 'enum_newtype_seq'), ('c19_pseudo', 'seq_enum'), ('c19_pseudo', 'enum_struct1')]:
+                       ('c19_pseudo', 'enum_newtype_seq'), ('c19_pseudo', 'seq_enum'), ('c19_pseudo', 'enum_struct1'), ('c19_pseudo', 'enum_unit1')]:
         def demote2(m):
             return m.group(0).replace('class=core', 'class=best').replace('tier=quick', 'tier=thorough')
         text = re.sub(r'//@ [^\n]*\nfn %s_%s\(\)' % (chk, sid), demote2, text)
